@@ -2,6 +2,7 @@ import MosnVerif.Lemmas.PoolSpec
 import MosnVerif.Lemmas.StreamOnce
 import MosnVerif.Lemmas.PoolMuxSpec
 import MosnVerif.Lemmas.PoolH2Steps
+import MosnVerif.Lemmas.PoolWinWitness
 /-!
 # C09 — upstream connection pools: exclusive leases, no leaks, no dirty reuse (property theorems only)
 
@@ -760,5 +761,56 @@ example : ((PoolH2.trace (PoolH2.init 1) [.newStream .refused, .extInc, .newStre
     [(.connFail, none, 0, 0), (.none, none, 0, 1), (.overflow, some 0, 1, 1), (.none, some 0, 1, 0), (.ok 0, some 0, 1, 1)] := by decide
 
 end H2
+
+/-! ### the close window of OnDestroyStream (ping-pong and HTTP/1 pools): intermediate states, any interleaving
+
+`Model/PoolWin.lean`: every statement of `OnDestroyStream` (helpers inlined; the ORDER is regenerated from the Go source,
+`Gen/PoolDestroy`) and the delivery of the close event to the pool's handler are separate atomic steps; a `NewStream`, the
+end of another request, a lost connection, a go-away frame may run between any two of them.  The theorems hold for every
+label list (= every interleaving), every limit, both pools; they are proved for every program in the class `progOk`
+(close test strictly before the single final put back) and the regenerated programs are decided to be in it. -/
+section Win
+open MosnVerif.Model.PoolWin MosnVerif.Lemmas.PoolWin MosnVerif.Lemmas.PoolWinWitness
+open MosnVerif.Model.Pool (Kind Dial Res)
+
+theorem destroy_prog_close_before_put (k : Kind) : progOk (destroyProg k) = true := by
+  cases k
+  · exact progOk_h1
+  · exact progOk_pp
+
+/-- **idle_clean_always**: at EVERY intermediate state of every interleaving the idle list holds only connections that are
+open, not marked closed, clean (no request on them was reset or answered `Connection: close`) and carry no request. -/
+theorem idle_clean_always (k : Kind) (maxConn maxReq : Nat) (ls : List Label) :
+    idleClean (MosnVerif.Model.PoolWin.run (MosnVerif.Model.PoolWin.init k maxConn maxReq) ls) :=
+  MosnVerif.Lemmas.PoolWin.idle_clean_always k maxConn maxReq _ (destroy_prog_close_before_put k) ls
+
+/-- **no lease of a dirty connection under any interleaving**: whatever ran before, a `NewStream` that succeeds hands
+out a fresh connection or an open, clean, un-leased one. -/
+theorem lease_never_dirty (k : Kind) (maxConn maxReq : Nat) (ls : List Label) (d : Dial) (c : Nat)
+    (s' : MosnVerif.Model.PoolWin.State) :
+    MosnVerif.Model.PoolWin.step (MosnVerif.Model.PoolWin.run (MosnVerif.Model.PoolWin.init k maxConn maxReq) ls) (.newStream d) = (s', .ok c) →
+    let s := MosnVerif.Model.PoolWin.run (MosnVerif.Model.PoolWin.init k maxConn maxReq) ls
+    (c = s.nClients ∨ (c < s.nClients ∧ (s.client c).dirty = false ∧ (s.client c).live = false ∧
+      (s.client c).netOpen = true ∧ (s.client c).closed = false)) :=
+  MosnVerif.Lemmas.PoolWin.lease_never_dirty k maxConn maxReq _ (destroy_prog_close_before_put k) ls d c s'
+
+/-- negation witness (put back, THEN close): the program is outside the class, and one schedule — request, local reset,
+the statements of OnDestroyStream up to the close, NewStream inside the window — leases the dirty, closed connection. -/
+theorem put_back_then_close_leases_dirty :
+    progOk bad = false ∧ ¬ idleClean (MosnVerif.Model.PoolWin.run (initWith .pp 0 0 bad) badSched) ∧
+    (MosnVerif.Model.PoolWin.step (MosnVerif.Model.PoolWin.run (initWith .pp 0 0 bad) badSched) (.newStream .ok)).2 = .ok 0 :=
+  ⟨bad_not_progOk, bad_not_idleClean, bad_leased⟩
+
+-- non-vacuity: in the real order the window is open (connection 0 closed, its close handler pending, not idle) and the
+-- NewStream made inside it dials connection 1
+example : (fun (s : MosnVerif.Model.PoolWin.State) => (s.idle, (s.client 0).netOpen, (s.client 0).closed, s.windowOpen 0))
+    (MosnVerif.Model.PoolWin.run (MosnVerif.Model.PoolWin.init .pp 0 0)
+      [.newStream .ok, .endStream 0 .localReset, .taskStep 0, .taskStep 0, .taskStep 0, .taskStep 0]) = ([], false, false, true) := by decide
+example : (MosnVerif.Model.PoolWin.step (MosnVerif.Model.PoolWin.run (MosnVerif.Model.PoolWin.init .pp 0 0)
+      [.newStream .ok, .endStream 0 .localReset, .taskStep 0, .taskStep 0, .taskStep 0, .taskStep 0]) (.newStream .ok)).2 = .ok 1 := by decide
+example : (MosnVerif.Model.PoolWin.step (MosnVerif.Model.PoolWin.run (MosnVerif.Model.PoolWin.init .h1 0 0)
+      [.newStream .ok, .endStream 0 .localReset, .taskStep 0]) (.newStream .ok)).2 = .ok 1 := by decide
+
+end Win
 
 end MosnVerif.Props.C09
